@@ -231,8 +231,12 @@ impl Ctx {
         for (k, v) in o.classes {
             *self.classes.entry(k).or_insert(0) += v;
         }
+        // keep the first two samples and the latest ones (deeper states come later)
         for s in o.samples {
             if self.samples.len() < self.max_samples {
+                self.samples.push(s);
+            } else if self.max_samples > 2 {
+                self.samples.remove(2);
                 self.samples.push(s);
             }
         }
@@ -263,23 +267,33 @@ impl Ctx {
 // the allocator red zone under AddressSanitizer.
 // ------------------------------------------------------------------------------------------
 const CANARY: u64 = 0xC0FF_EE11_D00D_F00D;
+/// Guard words on each side. In the AddressSanitizer build there are none: the container then
+/// sits alone in an exact-size heap block, so that an overrun hits the allocator's red zone
+/// (an overflow into a neighbouring field of the same object is invisible to ASan).
+#[cfg(not(mc_asan))]
+pub const CW: usize = 8;
+#[cfg(mc_asan)]
+pub const CW: usize = 0;
 
 #[repr(C)]
 pub struct Canary<T> {
-    pre: [u64; 8],
+    pre: [u64; CW],
     pub c: T,
-    post: [u64; 8],
+    post: [u64; CW],
 }
 impl<T> Canary<T> {
     pub fn boxed(c: T) -> Box<Canary<T>> {
         Box::new(Canary {
-            pre: [CANARY; 8],
+            pre: [CANARY; CW],
             c,
-            post: [CANARY; 8],
+            post: [CANARY; CW],
         })
     }
     #[inline]
     pub fn intact(&self) -> bool {
+        if CW == 0 {
+            return true;
+        }
         let a = unsafe { std::ptr::read_volatile(&self.pre) };
         let b = unsafe { std::ptr::read_volatile(&self.post) };
         a.iter().all(|x| *x == CANARY) && b.iter().all(|x| *x == CANARY)
@@ -307,6 +321,21 @@ extern "C" {
     fn open(path: *const u8, flags: i32, mode: u32) -> i32;
 }
 
+#[cfg(mc_asan)]
+extern "C" {
+    fn __sanitizer_set_death_callback(cb: extern "C" fn());
+}
+#[cfg(mc_asan)]
+extern "C" fn on_asan_death() {
+    unsafe {
+        let head = b"\nCRASH asan ";
+        write(CRUMB_FD, head.as_ptr(), head.len());
+        let p = std::ptr::addr_of!(CRUMB) as *const u8;
+        write(CRUMB_FD, p, CRUMB_USED);
+        write(CRUMB_FD, b"\n".as_ptr(), 1);
+    }
+}
+
 extern "C" fn on_fatal(sig: i32) {
     unsafe {
         let head = b"\nCRASH signal=";
@@ -332,8 +361,14 @@ pub fn install_crash_handler(path: Option<&str>) {
                 CRUMB_FD = fd;
             }
         }
-        for s in [11, 7, 6, 4, 8] {
-            signal(s, on_fatal as *const () as usize);
+        // under AddressSanitizer the sanitizer's own handlers report (and the death callback
+        // below prints the breadcrumb); ours would hide its report
+        #[cfg(mc_asan)]
+        __sanitizer_set_death_callback(on_asan_death);
+        if !cfg!(mc_asan) {
+            for s in [11, 7, 6, 4, 8] {
+                signal(s, on_fatal as *const () as usize);
+            }
         }
     }
 }
